@@ -7,4 +7,7 @@ CONSTANTS
   ClonesCapLimited = TRUE
   ParseErrorWins = TRUE
   SharedSkipCounter = FALSE
+  FreshStore = TRUE
+  RewindsSeekable = FALSE
+  FlagsReset = TRUE
 CHECK_DEADLOCK FALSE
